@@ -73,6 +73,7 @@ func (l *Ledger) Store(id atree.SlabID, data []byte) error {
 		return ErrInjected
 	}
 	l.Log = append(l.Log, Call{'S', id, append([]byte(nil), data...), true})
+	CheckRegister(id, data) // register-level oracles on what the commit writes (regcheck.go)
 	l.Seg[id] = append([]byte(nil), data...)
 	l.stored += len(data)
 	return nil
